@@ -265,6 +265,7 @@ run_case(char ** tok, int ntok)
 	int rc = 0;
 	int iter;
 	int k;
+	int use_https = 0;
 
 	method = (char *)unhex(tok[1], &l, 1);
 	path = (char *)unhex(tok[2], &l, 1);
@@ -313,6 +314,8 @@ run_case(char ** tok, int ntok)
 			wh.sockerr = atoi(tok[k] + 8);
 		else if (strncmp(tok[k], "sendfail=", 9) == 0)
 			wh.sendfail_at = (size_t)strtoull(tok[k] + 9, NULL, 10);
+		else if (strcmp(tok[k], "https=1") == 0)
+			use_https = 1;
 	}
 
 	req.method = method;
@@ -336,6 +339,25 @@ run_case(char ** tok, int ntok)
 	atexit(report_live);
 	wh.track = 1;
 
+#ifdef DRV_HTTPS
+	if (use_https) {
+		/*
+		 * The set-up of an HTTPS request (http.h: behaves like http_request, plus the
+		 * host name to verify): the request is cancelled as soon as it exists, so no TLS
+		 * is spoken; what is observed is the set-up and the release of everything it made.
+		 */
+		H = https_request(sas, &req, limit, callback, &ctx, "host.example");
+		puts_("req=");
+		puthex(wh.sent, wh.sentlen);
+		if (H != NULL)
+			http_request_cancel(H);
+		puts_(H == NULL ? " ret=null" : " ret=ok");
+		putnum(" cbs=", (unsigned long long)ctx.ncalls);
+		puts_(H == NULL ? " end=done" : " end=cancelled");
+		return;
+	}
+#endif
+	(void)use_https;
 	H = http_request(sas, &req, limit, callback, &ctx);
 	if (H == NULL) {
 		/* nothing may be registered: one spin of the loop must find nothing to do */
